@@ -77,7 +77,7 @@ Definition c12_clause3 (files : list (list N * list N)) (f : list N) (line col :
               h = filter (fun x => beq_bytes (fst x) f) l.
 (* clause 4: hover says local exactly when definition answers with the declaration of a local variable of the file *)
 Definition c12_clause4 (files : list (list N * list N)) (f : list N) (line col : N) : Prop :=
-  forall name, request_name (bytes_of files f) line col true = Some (Some name) ->
+  forall name, request_name (bytes_of files f) line col false = Some (Some name) ->
     run_hover files f line col <> HSkip ->
     (run_hover files f line col = HLocal <->
      exists ps fi v, parse_all files = Some ps /\ ws_file (mws_of ps) f = Some fi /\
@@ -133,7 +133,7 @@ Proof.
   destruct (parse_all files) as [ps|] eqn:Hp; [|discriminate].
   cbv zeta in Hl, Hh.
   destruct (ws_file (mws_of ps) f) as [fi|] eqn:Hw; [|discriminate].
-  destruct (request_name (bytes_of files f) line col true) as [[s|]|] eqn:Hn; try discriminate.
+  destruct (request_name (bytes_of files f) line col false) as [[s|]|] eqn:Hn; try discriminate.
   - destruct (references_at MRefs (mws_of ps) f fi s (zl line) (Z.of_N col)) as [l'|] eqn:El; [|discriminate].
     destruct (references_at MHighlight (mws_of ps) f fi s (zl line) (Z.of_N col)) as [h'|] eqn:Eh; [|discriminate].
     injection Hl as Hl. injection Hh as Hh. subst l' h'.
@@ -151,17 +151,9 @@ Proof.
   cbv zeta in *.
   destruct (ws_file (mws_of ps) f) as [fi|] eqn:Hw; [|contradiction].
   rewrite Hn.
-  assert (Hn' : request_name (bytes_of files f) line col false = Some (Some name) \/
-                request_name (bytes_of files f) line col false <> Some (Some name)).
-  { destruct (request_name (bytes_of files f) line col false) as [[x|]|].
-    - destruct (list_eq_dec N.eq_dec x name); [left; subst; reflexivity|right; intros E; injection E; auto].
-    - right; discriminate.
-    - right; discriminate. }
-  (* the two text cuts differ only at the very end of the document, where docend_empty makes the first one empty *)
-  assert (Hsame : request_name (bytes_of files f) line col false = Some (Some name)).
-  { unfold request_name in *. destruct (offset_of (bytes_of files f) line col 0) as [off|]; [|discriminate].
-    cbn [andb] in *. destruct (N.of_nat (length (bytes_of files f)) <=? off); cbn [andb] in Hn; [discriminate|exact Hn]. }
-  clear Hn'. rewrite Hsame in *.
+  (* the two handlers cut the text in the same way (since fixes/C05-doc-end.diff also at the very end of the document) *)
+  assert (Hsame : request_name (bytes_of files f) line col false = Some (Some name)) by exact Hn.
+  rewrite Hsame in *.
   split.
   - intros Hh. apply hover_local_iff in Hh. destruct Hh as [v Hv].
     exists ps, fi, v. repeat split; auto.
